@@ -3835,6 +3835,7 @@ func recv(n *node) {
 				if chosen == 0 {
 					return nil
 				}
+				getFrame(f, l).data[i] = v
 				if v.Bool() {
 					return tnext
 				}
